@@ -1,6 +1,5 @@
 //go:build verif
 
-
 package evm
 
 // VerifSetValidateRoutineCount sets the number of signature-checking goroutines that
